@@ -38,6 +38,8 @@ var hsAuthPatterns = [][]interface{}{
 	{map[string]interface{}{"rt": codec.VAuth{Scheme: "key", Key: "bm9uY2U="}}, map[string]interface{}{"rt": codec.VAuth{Scheme: "key", Key: "bm9uY2Uy"}}, "unknown"},
 	{map[string]interface{}{"rt": codec.VAuth{Scheme: "guest"}}, "error"},
 	{"unknown", "role"},
+	{"unknown0"},
+	{map[string]interface{}{"rt": codec.VAuth{Scheme: "plain", Password: "Y2hhbGxlbmdl"}}, "unknown0", "role"},
 }
 
 func inList(l []string, x string) bool {
@@ -80,6 +82,15 @@ func hsAlphabet(c *hsConfig, full bool) []hsRecv {
 	}
 	for _, st := range []string{"established", "finishing", "finished", "failed"} {
 		add(hsSes{State: st})
+	}
+	// envelopes whose state is wrong for the stage but whose other members would be acceptable there
+	for _, st := range []string{"new", "authenticating", "established", "finishing", "failed"} {
+		add(hsSes{State: st, Comp: "none", Enc: "none"})
+		add(hsSes{State: st, Comp: "none", Enc: "tls"})
+	}
+	for _, st := range []string{"new", "negotiating", "established", "finishing", "failed"} {
+		add(hsSes{State: st, From: hsClientNode, Scheme: "guest", Auth: &codec.VAuth{Scheme: "guest"}})
+		add(hsSes{State: st, From: hsClientNode, Scheme: "plain", Auth: &codec.VAuth{Scheme: "plain", Password: "cGFzcw=="}})
 	}
 	return out
 }
@@ -174,39 +185,42 @@ func runHsCases(e *Env, cases []*hsCase, corrKey string, judge hsJudge) error {
 	return nil
 }
 
-// wantsMore asks the model whether, after consuming the whole script, the server asks for more input.
-func (e *Env) wantsMore(c *hsCase) (bool, error) {
-	probe := *c
-	probe.Recvs = append(append([]hsRecv{}, c.Recvs...), hsRecv{T: "fail", How: "close"})
-	mo, err := e.modelServerHs(&probe)
-	if err != nil {
-		return false, err
-	}
-	return mo.Consumed == len(probe.Recvs), nil
+// wantsBatch asks the model, for every candidate next input after the prefix, whether the server
+// then asks for yet another input.
+func (e *Env) wantsBatch(c *hsCase, cands []hsRecv) ([]bool, error) {
+	var out []bool
+	req := map[string]interface{}{"m": "srvwants", "cfg": c.Cfg, "recvs": c.Recvs, "cands": cands, "auths": c.Auths, "regs": c.Regs,
+		"sendOk": c.SendOk, "setEncOk": c.SetEncOk, "enc0": c.Enc0}
+	err := e.Drv.Call(req, &out)
+	return out, err
 }
 
 // enumerateHs builds the script tree for one configuration / oracle pattern by model-guided
-// depth-first search: a script is extended only while the model still asks for input.
-func enumerateHs(e *Env, cfg *hsConfig, route string, auths []interface{}, regOk bool, depth int, full bool, sample func() bool) ([]*hsCase, error) {
+// depth-first search: a script is extended only while the model still asks for input. Inputs after
+// which the server goes on are always run and explored; the others (leaves) are all run when
+// sample is nil, else drawn.
+func enumerateHs(e *Env, cfg *hsConfig, route string, auths []interface{}, regOk bool, depth int, full bool, allFirst bool, sample func() bool) ([]*hsCase, error) {
 	alpha := hsAlphabet(cfg, full)
 	out := []*hsCase{}
 	var rec func(prefix []hsRecv, d int) error
 	rec = func(prefix []hsRecv, d int) error {
-		for _, a := range alpha {
-			script := append(append([]hsRecv{}, prefix...), a)
-			c := hsCaseFor(cfg, route, script, auths, regOk)
-			if sample == nil || d == 1 || sample() {
-				out = append(out, c)
+		base := hsCaseFor(cfg, route, prefix, auths, regOk)
+		wants := make([]bool, len(alpha))
+		if d < depth {
+			w, err := e.wantsBatch(base, alpha)
+			if err != nil {
+				return err
 			}
-			if d < depth {
-				more, err := e.wantsMore(c)
-				if err != nil {
+			wants = w
+		}
+		for i, a := range alpha {
+			script := append(append([]hsRecv{}, prefix...), a)
+			if wants[i] || sample == nil || (d == 1 && allFirst) || sample() {
+				out = append(out, hsCaseFor(cfg, route, script, auths, regOk))
+			}
+			if wants[i] {
+				if err := rec(script, d+1); err != nil {
 					return err
-				}
-				if more {
-					if err := rec(script, d+1); err != nil {
-						return err
-					}
 				}
 			}
 		}
@@ -261,13 +275,13 @@ func hssrvMode(judge hsJudge, prop string) Mode {
 					for _, route := range routes {
 						var sample func() bool
 						if !e.Thorough() {
-							rate := 12
+							rate := 10
 							if pi == 0 && regOk {
 								rate = 3
 							}
 							sample = func() bool { return e.Rng.Intn(rate) == 0 }
 						}
-						cases, err := enumerateHs(e, cfg, route, pat, regOk, depth, e.Thorough(), sample)
+						cases, err := enumerateHs(e, cfg, route, pat, regOk, depth, e.Thorough(), pi == 0 && regOk, sample)
 						if err != nil {
 							return err
 						}
